@@ -1,0 +1,62 @@
+//go:build verif
+
+// Package stats re-exports golang.org/x/perf/internal/stats for the
+// verification harness. It is only built with -tags verif.
+package stats
+
+import "golang.org/x/perf/internal/stats"
+
+type (
+	DeltaDist              = stats.DeltaDist
+	DiscreteDist           = stats.DiscreteDist
+	Dist                   = stats.Dist
+	DistCommon             = stats.DistCommon
+	LocationHypothesis     = stats.LocationHypothesis
+	MannWhitneyUTestResult = stats.MannWhitneyUTestResult
+	NormalDist             = stats.NormalDist
+	Sample                 = stats.Sample
+	TDist                  = stats.TDist
+	TTestResult            = stats.TTestResult
+	TTestSample            = stats.TTestSample
+	UDist                  = stats.UDist
+)
+
+const (
+	LocationLess    = stats.LocationLess
+	LocationDiffers = stats.LocationDiffers
+	LocationGreater = stats.LocationGreater
+)
+
+var (
+	ErrSampleSize        = stats.ErrSampleSize
+	ErrZeroVariance      = stats.ErrZeroVariance
+	ErrMismatchedSamples = stats.ErrMismatchedSamples
+	ErrSamplesEqual      = stats.ErrSamplesEqual
+	StdNormal            = stats.StdNormal
+)
+
+func ExactLimits() (untied, tied int) {
+	return stats.MannWhitneyExactLimit, stats.MannWhitneyTiesExactLimit
+}
+
+func MannWhitneyUTest(x1, x2 []float64, alt LocationHypothesis) (*MannWhitneyUTestResult, error) {
+	return stats.MannWhitneyUTest(x1, x2, alt)
+}
+func OneSampleTTest(x TTestSample, mu0 float64, alt LocationHypothesis) (*TTestResult, error) {
+	return stats.OneSampleTTest(x, mu0, alt)
+}
+func PairedTTest(x1, x2 []float64, mu0 float64, alt LocationHypothesis) (*TTestResult, error) {
+	return stats.PairedTTest(x1, x2, mu0, alt)
+}
+func TwoSampleTTest(x1, x2 TTestSample, alt LocationHypothesis) (*TTestResult, error) {
+	return stats.TwoSampleTTest(x1, x2, alt)
+}
+func TwoSampleWelchTTest(x1, x2 TTestSample, alt LocationHypothesis) (*TTestResult, error) {
+	return stats.TwoSampleWelchTTest(x1, x2, alt)
+}
+func Bounds(xs []float64) (float64, float64)       { return stats.Bounds(xs) }
+func GeoMean(xs []float64) float64                 { return stats.GeoMean(xs) }
+func Mean(xs []float64) float64                    { return stats.Mean(xs) }
+func StdDev(xs []float64) float64                  { return stats.StdDev(xs) }
+func Variance(xs []float64) float64                { return stats.Variance(xs) }
+func InvCDF(dist DistCommon) func(float64) float64 { return stats.InvCDF(dist) }
